@@ -40,7 +40,7 @@ def run(tier):
 
     ck = Check("C09", tier)
     ck.assumptions += ASSUMPTIONS
-    br = common.build()
+    br = common.build("C09")
     ck.proofs(br)
     if not br.ok:
         # tables changed or a proof broke: search the implementation for a failing input below
